@@ -407,6 +407,12 @@ def typed_mismatch(expect: dict, outcome: dict) -> str | None:
     if sch.get("type") == "array" and expect.get("items_object") and expect["json"]:
         if not t.startswith("list[dataclass:"):
             return f"array of objects returned as {t}"
+    if sch.get("type") == "array" and expect.get("items_enum") and expect["json"]:
+        if not t.startswith("list[enum:"):
+            return f"array of a named enum returned as {t}, not as a list of enum members"
+    if "$ref" in sch and expect.get("is_enum"):
+        if not t.startswith("enum:"):
+            return f"named enum body returned as {t}, not as an enum member"
     if sch.get("type") == "string" and sch.get("format") in ("date-time", "date") and t == "str":
         return f"{sch.get('format')} body returned as a raw str"
     return None
